@@ -38,5 +38,19 @@ Definition entry_C14 (sub : Z) (a : sx) : sx :=
           Lv [of_optnat single; of_optnat first; of_optnat resumed; of_dstate s_single b_single; of_dstate s2 (b1 && b2)]
       | _, _, _ => sx_err 1
       end
+  | 1, Lv [Lv args; single; os] =>
+      (* (args of perform; continue; continue ...)  (args of the single uninterrupted performSpatiallyAdaptiv)  stream
+         -> (all legs grow to the last one?  single run's limits = last leg's limits?  stop position of the single run,
+             (position, driver state) after every prefix of the history, resolved limits) *)
+      match opt_all (map get_args args), get_args single, get_obs_list os with
+      | Some h, Some a3, Some stream =>
+          let lims := resolve_history true h in
+          let lf := resolve_perform a3 in
+          Lv [sx_bool (all_growb lims lf); sx_bool (limits_eqb (last lims lf) lf);
+              of_optnat (first_stop lf stream);
+              Lv (map of_leg_result (legs_prefixes (length lims) lims stream));
+              Lv (map of_limits lims); of_limits lf]
+      | _, _, _ => sx_err 2
+      end
   | _, _ => sx_err 0
   end.
